@@ -33,6 +33,8 @@ import (
 const (
 	zzReadTimeout = 300 * time.Millisecond
 	zzShortPause  = 5 * time.Millisecond
+	zzMidPause    = zzReadTimeout * 45 / 100
+	zzLongPause   = zzReadTimeout * 70 / 100
 )
 
 // ---- body steps
@@ -45,6 +47,10 @@ const (
 	zzStepReset           // connection reset mid-body
 	zzStepTruncated       // the connection is closed before the declared end of the body (io.ErrUnexpectedEOF)
 	zzNumSteps
+	// only with PAUSES=1: longer pauses, still below the read timeout
+	zzStepPauseMid  = zzNumSteps     // 0.45 x read timeout, then data
+	zzStepPauseLong = zzNumSteps + 1 // 0.70 x read timeout, then data
+	zzNumStepsWithPauses = zzNumSteps + 2
 )
 
 // ---- pre-header outcomes of a backend
@@ -170,6 +176,7 @@ type zzBackends struct {
 	known        map[string]bool
 	steps        int
 	ctypes       int
+	pauses       bool
 }
 
 var zzCTypes = []string{"text/event-stream", "application/octet-stream", "application/x-ndjson", "application/json"}
@@ -182,10 +189,14 @@ func (b *zzBackends) draw() *zzScript {
 	}
 	sc.status = []int{200, 404, 500}[gosym.Choice("status", 3)]
 	sc.ctype = zzCTypes[gosym.Choice("ctype", b.ctypes)]
+	kinds := zzNumSteps
+	if b.pauses {
+		kinds = zzNumStepsWithPauses
+	}
 	for k := 0; k < b.steps; k++ {
-		kind := gosym.Choice("step", zzNumSteps)
+		kind := gosym.Choice("step", kinds)
 		st := zzStep{kind: kind}
-		if kind == zzStepChunk || kind == zzStepPause || kind == zzStepChunkEOF {
+		if kind == zzStepChunk || kind == zzStepPause || kind == zzStepChunkEOF || kind == zzStepPauseMid || kind == zzStepPauseLong {
 			st.data = gosym.Bytes("chunk", 2)
 		}
 		sc.steps = append(sc.steps, st)
@@ -290,6 +301,12 @@ func (r *zzBody) Read(p []byte) (int, error) {
 	switch st.kind {
 	case zzStepPause:
 		time.Sleep(zzShortPause)
+		return r.give(p, st.data), nil
+	case zzStepPauseMid:
+		time.Sleep(zzMidPause)
+		return r.give(p, st.data), nil
+	case zzStepPauseLong:
+		time.Sleep(zzLongPause)
 		return r.give(p, st.data), nil
 	case zzStepChunk:
 		return r.give(p, st.data), nil
@@ -402,6 +419,7 @@ func VerifEngine() {
 	world := &zzBackends{scripts: map[string]*zzScript{}, client: &zzClient{h: http.Header{}}}
 	zzWorld = world
 	world.known, world.steps, world.ctypes = map[string]bool{}, steps, gosym.Param("CTYPES")
+	world.pauses = gosym.Param("PAUSES") == 1
 	for i := range eps {
 		u, _ := url.Parse("zz://" + names[i] + ".backend:11434")
 		eps[i] = &domain.Endpoint{Name: names[i], URL: u, URLString: u.String(), Status: domain.StatusHealthy, BackoffMultiplier: 1, CheckInterval: 5 * time.Second}
